@@ -40,6 +40,33 @@ def kernel_calls(ctx, fi, g, name):
         ctx, fi, g, lambda c, r: any(t.qual == 'xfrm.Xfrm.' + name for t in r.targets))]
 
 
+def kernel_teardown(ctx, esc, rule):
+    """removing a CHILD_SA from the kernel cannot be cut short and cannot fail the caller: delete_child_sa asks for both SAs of the pair
+    on every path that returns (whatever the kernel said about the first), and delete_sa turns a kernel refusal (the SA is already gone:
+    ESRCH after a hard expire) into a report, not an exception.  The teardown of an IKE_SA and the sweep that removes DELETED
+    entries both run through it."""
+    from .. import tq
+    dc = ctx.func('xfrm.Xfrm.delete_child_sa')
+    gd = esc.add_exception_edges(dc)
+    ds = kernel_calls(ctx, dc, gd, 'delete_sa')
+    dsa = ctx.func('xfrm.Xfrm.delete_sa')
+    for n, x in ds:
+        b = bind_args(x, dsa)
+        what = '(%s, %s)' % (src(b['daddr']).split('.')[-1], src(b['spi']).split('.')[-1])
+        ctx.check(gd.exit.id not in gd.reach([gd.entry], blocked_nodes=[n]), rule,
+                  'delete_child_sa asks the kernel to delete %s on every path that returns, whatever happened to the other half'
+                  % what, key=(rule, 'delete-half-skipped', what), site=ctx.site(dc, x))
+    ctx.check(len(ds) == 2, rule, 'delete_child_sa issues exactly two kernel deletions', key=(rule, 'delete-count', len(ds)),
+              site=ctx.site(dc, dc.node))
+    D = ctx.sval(dsa)
+    sends = D.calls_to(qual='netlink.NetlinkProtocol.send_recv')
+    handled = [c for c in D.calls if any(a[0][0] == 'caught' and 'NetlinkError' in tq.text(a[0]) for a in c.pc)]
+    rer = [t for pc, t, _ in D.raises]
+    ctx.check(len(sends) == 1 and bool(handled) and not rer, rule,
+              'delete_sa tolerates a kernel refusal (already gone) and reports it', key=(rule, 'delete-tolerant'), site=ctx.site(dsa, dsa.node),
+              detail={'raises': [tq.text(t, 100) for t in rer]})
+
+
 def run(ctx):
     prog, res = ctx.prog, ctx.res
     esc = ctx.escape('engine', kills=common.engine_kills(ctx))
@@ -164,16 +191,7 @@ def run(ctx):
               % sorted(pairs_del), key=('P2', 'delete-orientation'), site=ctx.site(dc, dc.node))
     ctx.check(pairs_ins == want, 'P2', 'create_child_sa installs the same (destination, SPI) pairs: %s' % sorted(pairs_ins),
               key=('P2', 'install-orientation'), site=ctx.site(cc, cc.node))
-    # both halves of the pair are deleted on *every* path that returns from delete_child_sa, including the paths on which
-    # the first kernel request fails: an untracked CHILD_SA must not leave its other half installed
-    for n, x in ds:
-        b = bind_args(x, dsa)
-        what = '(%s, %s)' % (src(b['daddr']).split('.')[-1], src(b['spi']).split('.')[-1])
-        ctx.check(gd.exit.id not in gd.reach([gd.entry], blocked_nodes=[n]), 'P2',
-                  'delete_child_sa asks the kernel to delete %s on every path that returns, whatever happened to the other half'
-                  % what, key=('P2', 'delete-half-skipped', what), site=ctx.site(dc, x))
-    ctx.check(len(ds) == 2, 'P2', 'delete_child_sa issues exactly two kernel deletions', key=('P2', 'delete-count', len(ds)),
-              site=ctx.site(dc, dc.node))
+    kernel_teardown(ctx, esc, 'P2')
     protos = set(src(bind_args(x, dsa)['proto']) for n, x in ds)
     ctx.check(len(protos) == 1, 'P2', 'both deletions use the CHILD_SA\'s IPsec protocol', key=('P2', 'delete-proto'),
               site=ctx.site(dc, dc.node))
